@@ -29,7 +29,7 @@ func collectStrings(v any, out *[]string) {
 	}
 }
 
-var c04refs = []string{"$FOO", "${BAR}", "$$ESC", `\$ESC2`, "${UNSET:-dflt}", "${EMPTY:-e}", "${FOO-x}", "$UNSET.", "", "", "$(cmd)", "$", "$1", `\\`, "$FOO$BAR"}
+var c04refs = []string{`\$`, `x\$`, "$$", "$FOO", "${BAR}", "$$ESC", `\$ESC2`, "${UNSET:-dflt}", "${EMPTY:-e}", "${FOO-x}", "$UNSET.", "", "", "$(cmd)", "$", "$1", `\\`, "$FOO$BAR"}
 
 func c04doc(rng *sx.Rng, big bool) (*docgen, *dv) {
 	g := newDocgen(rng, false)
@@ -74,7 +74,7 @@ func c04doc(rng *sx.Rng, big bool) (*docgen, *dv) {
 	if s := d.get("steps"); s != nil && s.kind == 'l' && rng.Chance(30) {
 		s.l = append(s.l, dStr("frobnicate "+g.mark()))
 		if rng.Chance(50) {
-			s.l = append(s.l, dMap(dkv{"group", dStr("g " + g.mark())}, dkv{"steps", dList(dStr("deploy "+g.mark()))}))
+			s.l = append(s.l, dMap(dkv{"group", dStr("g " + g.mark())}, dkv{"steps", dList(dStr("deploy " + g.mark()))}))
 		}
 	}
 	if big && d.kind == 'm' {
